@@ -1,12 +1,17 @@
 #!/bin/bash
-# usage: cbmc_loops.sh <module> <harness> [unwind] [seconds]
-# builds the harness through cargo kani (5 s verification cap), then re-runs cbmc verbosely on the goto
-# binary and summarises which loops symex spends its time in.  Debug aid, not part of any check.
-mod=$1; h=$2; unwind=${3:-20}; secs=${4:-200}
-cd /repo && VERIF_SELECT_DIR=/verif/.cache/slot0 CARGO_NET_OFFLINE=true cargo kani -p server --lib --no-default-features --features disable-mimalloc -Z stubbing -Z unstable-options -Z restrict-vtable --no-assertion-reach-checks --no-memory-safety-checks --harness-timeout 5s --target-dir /verif/.cache/kani --exact --harness verif::$mod::$h > /verif/.cache/loops_build.log 2>&1
-f=$(ls -t /verif/.cache/kani/kani/x86_64-unknown-linux-gnu/debug/build/server/*/out/*${h}.out | head -1)
+# usage: [VERIF_SLOT=n] cbmc_loops.sh <module> <harness> [unwind] [seconds] [lines]
+# Debug aid (not part of any check): builds one harness through cargo kani (5 s verification cap), then
+# re-runs cbmc verbosely on the goto binary and summarises which loops symbolic execution visits.
+mod=$1; h=$2; unwind=${3:-10}; secs=${4:-200}
+S=${VERIF_SLOT:-0}; T=/verif/.cache/kani; [ "$S" != "0" ] && T=/verif/.cache/kani$S
+mkdir -p /verif/.cache/slot$S
+printf '#[path = "/verif/harness/server/%s.rs"]\npub mod %s;\n' $mod $mod > /verif/.cache/slot$S/select_server.rs
+[ -f /verif/.cache/slot$S/playback_tests_server.rs ] || echo "// empty" > /verif/.cache/slot$S/playback_tests_server.rs
+python3 /verif/tools/deasync.py
+cd /repo && VERIF_SELECT_DIR=/verif/.cache/slot$S CARGO_NET_OFFLINE=true cargo kani -p server --lib --no-default-features --features disable-mimalloc -Z stubbing -Z unstable-options --no-assertion-reach-checks --no-memory-safety-checks --harness-timeout 5s --target-dir $T --exact --harness verif::$mod::$h > /verif/.cache/loops_build$S.log 2>&1
+f=$(ls -t $T/kani/x86_64-unknown-linux-gnu/debug/build/server/*/out/*${h}.out | head -1)
 echo "goto binary: $f"
-cd /tmp && timeout $secs cbmc --no-malloc-may-fail --no-undefined-shift-check --no-signed-overflow-check --nan-check --no-self-loops-to-assumptions --no-pointer-primitive-check --no-pointer-check --no-bounds-check --object-bits 16 --unwind $unwind --sat-solver cadical --slice-formula --max-field-sensitivity-array-size 400 "$f" --verbosity 9 > /verif/.cache/cbmc_v.log 2>&1
+cd /tmp && timeout $secs cbmc --no-malloc-may-fail --no-undefined-shift-check --no-signed-overflow-check --nan-check --no-self-loops-to-assumptions --no-pointer-primitive-check --no-pointer-check --no-bounds-check --object-bits 16 --unwind $unwind --sat-solver cadical --slice-formula --max-field-sensitivity-array-size 400 "$f" --verbosity 9 > /verif/.cache/cbmc_v$S.log 2>&1
 echo "cbmc exit: $?"
-grep "Unwinding\|Not unwinding" /verif/.cache/cbmc_v.log | sed 's/iteration [0-9]*//' | sed 's/^\(Unwinding\|Not unwinding\) loop [^ ]* *//' | sort | uniq -c | sort -rn | head -${5:-25} | cut -c1-260
-grep -n "Runtime\|VERIFICATION\|SAT checker\|Generated" /verif/.cache/cbmc_v.log | tail -12
+grep "Unwinding\|Not unwinding" /verif/.cache/cbmc_v$S.log | sed 's/iteration [0-9]*//' | sed 's/^\(Unwinding\|Not unwinding\) loop [^ ]* *//' | sort | uniq -c | sort -rn | head -${5:-25} | cut -c1-260
+grep -n "Runtime\|VERIFICATION\|SAT checker\|Generated" /verif/.cache/cbmc_v$S.log | tail -12
